@@ -78,6 +78,18 @@ func (c *childMap) Add(e Entry) {
 	c.c[e.PathName()] = e
 }
 
+// AddIfAbsent adds the Entry unless an Entry of that name exists already.
+// It returns the Entry that is present under the name afterwards.
+func (c *childMap) AddIfAbsent(e Entry) Entry {
+	c.mu.Lock()
+	defer c.mu.Unlock()
+	if existing, exists := c.c[e.PathName()]; exists {
+		return existing
+	}
+	c.c[e.PathName()] = e
+	return e
+}
+
 func (c *childMap) GetEntry(s string) (Entry, bool) {
 	c.mu.RLock()
 	defer c.mu.RUnlock()
@@ -633,6 +645,26 @@ func (s *sharedEntryAttributes) String() string {
 
 // addChild add an entry to the list of child entries for the entry.
 func (s *sharedEntryAttributes) addChild(ctx context.Context, e Entry) error {
+	err := s.checkChild(e)
+	if err != nil {
+		return err
+	}
+	s.childs.Add(e)
+	return nil
+}
+
+// addChildIfAbsent adds the child unless a child of that name exists already (another goroutine
+// that loads values on demand might have added it in the meantime). The child that is present
+// afterwards is returned.
+func (s *sharedEntryAttributes) addChildIfAbsent(e Entry) (Entry, error) {
+	err := s.checkChild(e)
+	if err != nil {
+		return nil, err
+	}
+	return s.childs.AddIfAbsent(e), nil
+}
+
+func (s *sharedEntryAttributes) checkChild(e Entry) error {
 	// make sure Entry should not only hold LeafEntries
 	if s.leafVariants.Length() > 0 {
 		// An exception are presence containers
@@ -645,7 +677,6 @@ func (s *sharedEntryAttributes) addChild(ctx context.Context, e Entry) error {
 	if !slices.Equal(s.Path(), e.Path()[:len(e.Path())-1]) {
 		return fmt.Errorf("adding Child with diverging path, parent: %s, child: %s", s, strings.Join(e.Path()[:len(e.Path())-1], "/"))
 	}
-	s.childs.Add(e)
 	return nil
 }
 
@@ -1489,14 +1520,28 @@ func (s *sharedEntryAttributes) AddCacheUpdateRecursive(ctx context.Context, c *
 	}
 
 	var e Entry
-	var err error
 	var exists bool
 	// if child does not exist, create Entry
 	if e, exists = s.childs.GetEntry(c.GetPath()[idx]); !exists {
 		verifYieldAt("tree.newentry", s)
-		e, err = newEntry(ctx, s, c.GetPath()[idx], s.treeContext)
+		// Values are also added while the tree is being validated concurrently (values loaded on demand).
+		// The new Entry is therefore set up before it becomes a child of s: if it is the Entry that holds the
+		// value, the value is added first, so that nobody can find the Entry without its value, and it only
+		// becomes the child if no other goroutine added an Entry of that name in the meantime.
+		ne, err := newDetachedEntry(ctx, s, c.GetPath()[idx], s.treeContext)
 		if err != nil {
 			return nil, err
+		}
+		holdsValue := idx == len(c.GetPath())-1
+		if holdsValue {
+			ne.leafVariants.Add(NewLeafEntry(c, flags, ne))
+		}
+		e, err = s.addChildIfAbsent(ne)
+		if err != nil {
+			return nil, err
+		}
+		if holdsValue && e == Entry(ne) {
+			return e, nil
 		}
 	}
 	return e.AddCacheUpdateRecursive(ctx, c, flags)
